@@ -122,3 +122,15 @@ Definition preimage_exact (ps : list (string * string * list string)) (sink : li
     otherwise whatever normalisation [variant] the tree applies *)
 Definition pi_of_facts (exact : bool) (variant : preimage) : preimage :=
   if exact then pi_exact else variant.
+
+(* ------------------------------------------------------------------ repeated pairs in a vote string *)
+
+(** generated fact [rates_dup_check] = (form, skips): form "seen-set" = inside the loop of
+    NewExchangeRateTuplesFromString the pair of every tuple is looked up in AND recorded into one
+    map / set; skips = the conditions under which an iteration leaves (continue / break) BEFORE that
+    lookup.  The model's [DupAll] needs the seen-set with no skip. *)
+Definition dup_rule_of_facts (f : string * list string) : option dup_rule :=
+  let '(form, skips) := f in
+  if String.eqb form "seen-set"
+  then match skips with [] => Some DupAll | _ => None end
+  else if String.eqb form "none" then Some DupOff else None.
